@@ -155,9 +155,15 @@ def execute(scn):
                 why = 'MBAP length %d inconsistent with the PDU (shorter than its own count fields require)' % (len(d['pdu'] or b'') + 1)
             elif want != -1 and want != len(d['pdu'] or b''):
                 why = 'MBAP length %d inconsistent with the PDU (its fields imply %d bytes)' % (len(d['pdu']) + 1, want + 1)
+        if framing == 'ascii' and why.startswith('no valid frame'):
+            import re
+            for m in re.finditer(rb':([^:]*?)\r\n', given):
+                if re.search(rb'[^0-9A-Fa-f]', m.group(1)):
+                    why = 'non-hex character accepted inside an ASCII frame (int(.., 16) tolerates blanks/underscores)'
         sig = {'property': ID, 'framing': framing, 'decoder': scn['decoder'], 'class': 'unjustified-delivery',
                'corruption': '+'.join(kinds), 'why': ('mbap-length-inconsistent' if why.startswith('MBAP') else
-                                                      'header-differs' if why.startswith('header') else 'no-valid-frame'),
+                                                      'header-differs' if why.startswith('header') else
+                                                      'ascii-non-hex-accepted' if why.startswith('non-hex') else 'no-valid-frame'),
                'delivered_as': d['cls'] if d['cls'] in ('IllegalFunctionRequest', 'ExceptionResponse') else 'message'}
         if framing == 'binary' and rc.has_delim(given):
             sig['binary_delim'] = any(rc.has_delim(c[1:-1]) for c in chunks)
